@@ -225,8 +225,13 @@ def probes(rep, broken, exe, tier):
             tot += 1
             m = monitor(o, h, {})
             if m:
-                bad += 1
-                rep.violation(f'J2 probe: {m}', {'op': o, 'impl_out': h}, True)
+                key = None
+                if isinstance(m, tuple):        # (message, key of a known finding)
+                    m, key = m
+                before = len(rep.violations)
+                rep.violation(f'J2 probe: {m}', {'op': o, 'impl_out': h}, True, key=key)
+                if len(rep.violations) > before:
+                    bad += 1
     notes['J2_unitnorm_workspace_stop_injection'] = {'runs': tot, 'inconsistent': bad}
     rep.cov['probes'] = notes
     rep.cov['evaluations'] += tot + 3
